@@ -362,12 +362,27 @@ Proof.
   { cbn [with_sync ps_sync]. rewrite Hc3. eapply Forall_impl; [|exact HTR2]. intros fi (Hlt & Ht). split; [exact Hlt|].
     apply (truthful_map_fst predict gs4 gs3); [exact Hmap3|exact Ht]. }
   (* what went to the remote players *)
-  intros HO.
+  intros (HO & _).
   destruct (send_ready_outgoing_out p4 out0 p5 o5 gs4 E5 (HO4 HO) (QS_local_gs predict predict_idem _ _ _ _ _ HQS4)) as (HO5 & rounds & Q1 & Q2).
   assert (Hrs2 : o_remote_sends o2 = o_remote_sends o5).
   { destruct (c <=? cf); [apply res_bind_ok in E2; destruct E2 as (pis & _ & E2); injection E2 as _ <-; reflexivity|injection E2 as _ <-; reflexivity]. }
-  split.
+  split; [split|].
   - intros Hr. change (ps_remotes p5 <> []) in Hr. eapply OI_same; [exact (HO5 Hr)|reflexivity|reflexivity|reflexivity|exact Hmap3].
+  - (* everything registered has been sent *)
+    intros Hr5 Hl5. change (ps_remotes p5 <> []) in Hr5. change (local_handles p5 <> []) in Hl5.
+    assert (Hr4 : ps_remotes p4 <> []) by (rewrite O5 in Hr5; exact Hr5).
+    assert (Hlo4 : local_handles p4 <> []) by (rewrite O5 in Hl5; exact Hl5).
+    assert (Hall4 : forall h gh, In h (local_handles p4) -> nth_error gs4 (Z.to_nat h) = Some gh -> hlen (fst gh) = c + d + 1).
+    { intros h gh Hin Hg. rewrite (local_handles_rest _ _ Hrest4) in Hin.
+      pose proof (Hdone4 h (local_handles_ge _ _ Hin) (or_introl Hin)) as Hdn. unfold Done in Hdn. fold s4 c in Hdn.
+      destruct (nth_error_some_len (s_queues s4) gs4 (Z.to_nat h) gh Hlq5 Hg) as (q & Hq).
+      destruct (Hdn q gh Hq Hg) as (X & _). exact X. }
+    destruct (send_ready_outgoing_done predict predict_idem p4 out0 p5 o5 gs4 _ E5 (HO4 HO) (QS_local_gs predict predict_idem _ _ _ _ _ HQS4) Hall4 Hr4 Hlo4) as (Y1 & Y2).
+    change (ps_outgoing p5 = [] /\ forall h gh, In h (local_handles p5) -> nth_error gs3 (Z.to_nat h) = Some gh -> hlen (fst gh) = ps_last_sent_out p5 + 1).
+    split; [exact Y1|]. intros h gh Hin Hg. rewrite Y2.
+    assert (Hin4 : In h (local_handles p4)) by (rewrite O5 in Hin; exact Hin).
+    destruct (map_fst_nth gs4 gs3 _ gh Hmap3 Hg) as (gh4 & Cg & Efst). rewrite <- Efst.
+    rewrite (Hall4 h gh4 Hin4 Cg). lia.
   - rewrite (spec_sends_rsends _ _ _ _ _ Es3), Hrs2, Q1. cbn [out0 o_remote_sends app].
     rewrite (local_handles_rest _ _ Hrest4) in Q2. apply (rounds_ok_ext predict predict_idem _ gs4 gs3 _ Hmap3 Q2).
 Qed.
@@ -596,7 +611,7 @@ Theorem lockstep_sends_and_receipts :
       exists gh, nth_error gs (Z.to_nat pl) = Some gh /\ 0 <= f < hlen (fst gh) /\ hval (fst gh) f = v) /\
     (forall pl e gh f, 0 <= pl -> nth_error kinds (Z.to_nat pl) = Some (KRemote e) ->
       nth_error gs (Z.to_nat pl) = Some gh -> 0 <= f < hlen (fst gh) -> In (SRemote pl f (hval (fst gh) f)) ops) /\
-    ps_kinds p = kinds.
+    ps_kinds p = kinds /\ OB p gs.
 Proof.
   intros predict Hi Hz ops n d kinds eps nspec p outs Hd Hcap Hn Hlen Hpl H.
   set (p0 := session_start n 0 false d kinds eps nspec) in *.
@@ -606,12 +621,12 @@ Proof.
   { split; [reflexivity|]. split; [apply JI_start; lia|]. split; [apply LKx_start|].
     exists (repeat ([], 0) (Z.to_nat n)), d. split; [exact HQS0|exact HTI0]. }
   destruct (run_sends_g predict Hi Hz false (CIl predict) (lockstep_CI_step predict Hi Hz) (lockstep_CI_adv predict Hi)
-              (lockstep_CI_frame predict) ops p0 _ (game0 0) 0 d HQS0 HCI0 HTI0 (OI_start predict Hi false n 0 d kinds eps nspec))
-    as [E|(p' & outs' & gs & g & E1 & Ex & HQS & HCI & (HG & HGI & HPN) & _ & _ & Hk & Hr & Hdl & Hcv)]; [congruence|].
+              (lockstep_CI_frame predict) ops p0 _ (game0 0) 0 d HQS0 HCI0 HTI0 (conj (OI_start predict Hi false n 0 d kinds eps nspec) (OB_start false n 0 d kinds eps nspec)))
+    as [E|(p' & outs' & gs & g & E1 & Ex & HQS & HCI & (HG & HGI & HPN) & (_ & HB) & _ & Hk & Hr & Hdl & Hcv)]; [congruence|].
   rewrite H in E1. injection E1 as <- <-.
   exists g, gs. split; [exact Ex|]. split; [exact HQS|].
   destruct HCI as (_ & HJ & (HLq & _) & _).
-  split; [exact (ji_frame _ _ _ HJ)|]. split; [|split; [|split; [exact Hdl|split; [|exact Hk]]]].
+  split; [exact (ji_frame _ _ _ HJ)|]. split; [|split; [|split; [exact Hdl|split; [|split; [exact Hk|exact HB]]]]].
   3:{ intros pl e gh f Hpl0 Hkp Ag Hf.
       assert (Hl0 : (Z.to_nat pl < Z.to_nat n)%nat).
       { assert (nth_error kinds (Z.to_nat pl) <> None) as X by congruence. apply nth_error_Some in X. lia. }
